@@ -649,6 +649,16 @@ static int run_cmd(struct ctx *c, char **t, int nt) {
       fprintf(o, "{\"op\":\"long\",\"kind\":\"%s\",\"len\":%zu,\"api\":\"readDirs(drop-in)\",\"rc\":\"%s\",\"out_len\":%zu,\"head_ok\":%s,\"tail_ok\":%s,\"os_ok\":%s}\n", kind, len, ename(ge),
               len, (v && !strcmp(v, "1")) ? "true" : "false", (v && !strcmp(v, "1")) ? "true" : "false", w == 0 ? "true" : "false");
       free(v); econf_freeFile(kf); free(etc); free(pth); free(name);
+    } else if (!strcmp(what, "dropins")) {        /* two drop-ins whose names of len bytes differ only in the LAST byte, no suffix */
+      char *n1 = malloc(len + 1), *n2 = malloc(len + 1); memset(n1, 'n', len); n1[len] = 0; memcpy(n2, n1, len + 1); n1[len - 1] = '1'; n2[len - 1] = '2';
+      char *p0, *p1, *p2; if (asprintf(&p0, "%s/p", dir) < 0 || asprintf(&p1, "%s/p.d/%s", dir, n1) < 0 || asprintf(&p2, "%s/p.d/%s", dir, n2) < 0) return 0;
+      int w = wfile(p0, "M=0\n", 4) | wfile(p1, "A=1\n", 4) | wfile(p2, "B=2\n", 4);
+      econf_file *kf = NULL; e = econf_readDirs(&kf, "/nonexistent-verif", dir, "p", NULL, "=", "#");
+      char *va = NULL, *vb = NULL; econf_err ea = e ? e : econf_getStringValue(kf, NULL, "A", &va), eb = e ? e : econf_getStringValue(kf, NULL, "B", &vb);
+      int both = !ea && !eb && va && vb && !strcmp(va, "1") && !strcmp(vb, "2");
+      fprintf(o, "{\"op\":\"long\",\"kind\":\"dropins\",\"len\":%zu,\"api\":\"readDirs(two names differing in the last byte)\",\"rc\":\"%s\",\"out_len\":%zu,\"head_ok\":%s,\"tail_ok\":%s,\"os_ok\":%s}\n",
+              len, ename(e ? e : (ea ? ea : eb)), both ? len : 0, both ? "true" : "false", both ? "true" : "false", w == 0 ? "true" : "false");
+      free(va); free(vb); econf_freeFile(kf); free(p0); free(p1); free(p2); free(n1); free(n2);
     } else {                                      /* a path of exactly len bytes built from nested directories */
       size_t base = strlen(dir); char *pth = malloc(len + 16); strcpy(pth, dir); size_t cur = base; int w = 0;
       while (cur + 2 + 6 < len) { size_t seg = len - cur - 1 - 7; if (seg > 200) seg = 200; if (seg < 1) break; pth[cur++] = '/'; memset(pth + cur, 'd', seg); cur += seg; pth[cur] = 0; }
